@@ -392,6 +392,31 @@ func post(args []string) {
 			stats["marshal-failed"]++
 			continue
 		}
+		// the round-trip theorem's prediction: where its conditions hold (evaluated by the model on the
+		// file value), FileFromJSONWith(Marshal(f)) writes the text of f
+		{
+			var passed *ach.ValidateOpts
+			if r.Chance(1, 6) {
+				passed = &ach.ValidateOpts{}
+			}
+			verdict, hv := "ne", "1"
+			before, e1 := writeTextBypass(f)
+			var res *ach.File
+			guard(func() { res, _ = ach.FileFromJSONWith(bs, passed) })
+			if res != nil && e1 == nil {
+				guard(func() {
+					if res.Header.Validate() != nil {
+						hv = "0"
+					}
+				})
+				if after, e2 := writeTextBypass(res); e2 == nil && after == before {
+					verdict = "eq"
+				}
+			}
+			stats["roundtrip:"+verdict]++
+			cases.Printf("%s\n", "R "+passedString(passed)+" "+hv+" "+verdict+" "+dumpStr(reflect.ValueOf(f)))
+			impl.Printf("%s\n", verdict)
+		}
 		masks := []int{0, 1 << uint(r.Intn(8)), r.Intn(256)}
 		for _, mask := range masks {
 			x, err := parseTree(bs)
